@@ -107,7 +107,8 @@ func runC16(c *Ctx) {
 	c.rep.Rule = "sequences of 8-40 calls (CreateFile/Write/Close/Abort/TombstoneFile/Update/OpenFile/handle reads) by up to 4 writers open at once, " +
 		"name draws forced through a cyclic stream over 3 names, payloads: arbitrary bytes incl. empty, and valid bloom files written in 1-3 chunks; " +
 		"real os failures injected at reservation/temp create and directory fsync (EMFILE), Sync (handle closed early), rename/remove (immutable directory, when the platform allows); " +
-		"about a third of the TombstoneFile calls hit a pointer whose writer is still open. After every call: hook-event log = model plan, listing+bytes, scan pointers, reads, spec predicate. " +
+		"about a third of the TombstoneFile calls hit a pointer whose writer is still open; the root directory's own path contains .dat/.tmp in about half of the sequences. " +
+		"After every call: hook-event log = model plan, listing+bytes, scan pointers, reads, spec predicate, no artifact of a tombstoned pointer left, no path outside the root touched. " +
 		"Non-trivial: a sequence with at least one successful Close and one removal or collision. Distinct by call text."
 	scratch := filepath.Join(c.Out, "fs")
 	clearImmutableTree(scratch)
@@ -120,7 +121,9 @@ func runC16(c *Ctx) {
 	pool := bloomFilePool(c, 8)
 	nSeq := c.pick(500, 8000)
 	for i := 0; i < nSeq; i++ {
-		c16Sequence(c, sh, filepath.Join(scratch, fmt.Sprintf("s%d", i)), i, fixed, pool)
+		dir, layout := famFRoot(c, scratch, "s", i)
+		c.dist("c16_root", layout)
+		c16Sequence(c, sh, dir, i, fixed, pool)
 	}
 	c16Exhaust(c, sh, filepath.Join(scratch, "exhaust"), fixed)
 	if !immutableProbe.ok {
@@ -166,6 +169,7 @@ func c16Sequence(c *Ctx, sh *shard, dir string, seq int, fixed bool, pool [][]by
 	}
 	bloomStream := c.chance(0.35)
 	r := newFsRig(dir, draws)
+	r.strict = true
 	defer func() {
 		r.close()
 		os.RemoveAll(dir)
@@ -259,6 +263,16 @@ func c16Sequence(c *Ctx, sh *shard, dir string, seq int, fixed bool, pool [][]by
 		steps = append(steps, fmt.Sprintf("(%s, mkObs %s %s %s %s %s %s true)", opTerm, coqLabels(res.labels, in), coqBool(ok), ptrTerm, readTerm, coqListing(listing, in), coqList(scanItems)))
 		log = append(log, *st)
 		// the specification on the Go side
+		if goViolation == "" && len(r.foreign) > 0 {
+			goViolation = fmt.Sprintf("step %d (%s): the store touched a path outside its root directory %s: %v", len(log)-1, st.Op, dir, r.foreign)
+		}
+		if goViolation == "" && st.Op == "TombstoneFile" && res.err == nil {
+			for _, e := range listing {
+				if e.Base == st.Base {
+					goViolation = fmt.Sprintf("step %d: TombstoneFile(%s.dat) returned nil and left %s.%s (%d bytes) behind", len(log)-1, st.Base, e.Base, strings.ToLower(e.Ext), len(e.Data))
+				}
+			}
+		}
 		if goViolation == "" {
 			for b, want := range spec {
 				if got, okc := content[b]; !okc || !bytes.Equal(got, want) {
@@ -511,7 +525,7 @@ func c16Sequence(c *Ctx, sh *shard, dir string, seq int, fixed bool, pool [][]by
 		}
 	}
 	term := fmt.Sprintf("CSeq %s (N.to_nat %d%%N) %s %s (fun t => %s)", coqBool(fixed), bs.VerifMaxCreateFileAttempts, in.table(validBloom), coqStrList(draws), coqList(steps))
-	desc := map[string]any{"kind": "sequence", "seq": seq, "draws": draws, "bloom_stream": bloomStream, "unguarded_caller": unguarded, "steps": log, "own_check": fixed}
+	desc := map[string]any{"kind": "sequence", "seq": seq, "root": dir, "draws": draws, "bloom_stream": bloomStream, "unguarded_caller": unguarded, "steps": log, "own_check": fixed}
 	if d8case {
 		desc["sig"] = sigD8
 		c.dist("c16_guard", "stale-writer-close-returned-nil")
